@@ -308,6 +308,8 @@ Op(g, d, ps, bs, cf) == [kind |-> "op", group |-> g, dialect |-> d, params |-> p
                          spell |-> SpellPlain]
 Cfg0 == [allow_x00 |-> TRUE, codec |-> "utf-8", security |-> FALSE]
 None3 == <<0, 0, 0>>
+CfgWide == Cfg0 @@ [draws |-> "wide"]      \* rare mutation choices matter: many draws per descriptor (harness/c02.py)
+ExclIdx == {q \in NumIdx : (q[3] \/ q[5]) /\ q[6] \in {Absent, 2} /\ (Rich \/ (q[6] = Absent /\ q[2] \in {Absent, 0} /\ q[4] \in {Absent, 3}))}
 MkOp(g, d, q, p, h, c, b, cf) ==
   Op(g, d, MkParams("path", nId, nKey, p) \o MkParams("query", nQ1, nQ2, q) \o MkParams("header", nH1, nH2, h) \o MkParams("cookie", nC1, nC1, c),
      MkBodies(d, b), cf)
@@ -415,6 +417,13 @@ IsOpDesc(x) ==
          reference, with readOnly / nullable / required properties at the far end --- *)
   \/ Family = "c01" /\ \E d \in AllD, r \in {"R1", "R4", "T", "Q1", "T2", "P1"} :
         x = [Op("deep-ref", d, <<>>, <<[media |-> MJson, schema |-> S0 @@ [ref |-> r], required |-> TRUE]>>, Cfg0) EXCEPT !.defs = DeepDefs]
+  (* --- exclusive bounds on a numeric body: every numeric leaf of NumIdx in which exclusiveMinimum / exclusiveMaximum is switched on (2.0 / 3.0
+         spell it as the draft-4 BOOLEAN next to the bound, 3.1 numerically), integer and number.  A value inside the open interval conforms
+         (ValidD under the operation's dialect decides), so it must never come out labelled negative; the generator reaches such values only
+         through rare mutation choices (a type change number -> integer keeps the bounds), hence cfg.draws = "wide": the driver takes many
+         more draws for these descriptors than for the rest of the family --- *)
+  \/ Family = "c02" /\ \E d \in OpDialects \cup {"2.0"}, q \in ExclIdx :
+        x = Op("exclusive-bound", d, <<>>, <<[media |-> MJson, schema |-> NumLeaf(q), required |-> TRUE]>>, CfgWide)
 
 (* Histories (C03): the coverage cases of operation A, then of operation B, generated in ONE process (labels are objects that *)
 (* live across operations); every ordered pair over a small pool, incl. an operation whose second query parameter has no   *)
